@@ -219,10 +219,11 @@ class St:
 
 
 class GF2:
-    def __init__(self, fn, entry=None, max_pass=5, summaries=None):
+    def __init__(self, fn, entry=None, max_pass=5, summaries=None, oklen=None):
         self.fn = fn
         self.entry = entry
         self.summaries = summaries  # callable(call_terminator, gf, state) -> IS | None
+        self.oklen = oklen          # callable(call_terminator) -> {param_no: IS} | None ("Ok implies len(param) in IS")
         self.max_pass = max_pass
         self._nr = {}
         self._mut_roots = None
@@ -472,7 +473,7 @@ class GF2:
                         st.rel.add((r[0], k) + r[2:])
                     elif r[0] == "RANGE" and r[1] == ak:
                         st.rel.add(("RANGE", k) + r[2:])
-                    elif r[0] in ("SOMEIDX", "PAYLOAD", "CHUNKS", "BSEARCH", "POSITION") and r[1] == ak:
+                    elif r[0] in ("SOMEIDX", "PAYLOAD", "CHUNKS", "BSEARCH", "POSITION", "OKLEN") and r[1] == ak:
                         st.rel.add((r[0], k) + r[2:])
                 # payload of an Option produced by an iterator: `_i = ((_d as Some).0)` [.0]
                 self._from_some(st, k, a)
@@ -694,6 +695,19 @@ class GF2:
             iv = self.summaries(t, self, st)
             if iv is not None and not iv.is_top():
                 st.rel.add(("PAYLOAD", k, iv))
+        if getattr(self, "oklen", None) is not None and cn.startswith("kanata"):
+            sm = self.oklen(t)
+            if sm:
+                for j, iv in sm.items():
+                    if j - 1 < len(t["args"]):
+                        lk = self.len_key(t["args"][j - 1])
+                        if lk is not None:
+                            st.rel.add(("OKLEN", k, lk, iv))
+        if cw in ("core::ops::try_trait::Try::branch",) and t["args"]:
+            ak0 = self.key_of(t["args"][0])
+            for r in list(st.rel):
+                if r[0] == "OKLEN" and r[1] == ak0:
+                    st.rel.add(("OKLEN", k, r[2], r[3]))
         if cw in ("core::ops::try_trait::Try::branch", "core::option::Option::ok_or_else", "core::option::Option::ok_or",
                   "core::result::Result::ok", "core::result::Result::map_err", "core::option::Option::copied") and t["args"]:
             ak = self.key_of(t["args"][0])
@@ -874,6 +888,19 @@ class GF2:
         if not is_place(d) or proj(d):
             return
         df = fn.single_def(d["l"])
+        if df and df[2] == "assign" and df[3]["k"] == "discr" and not proj(df[3]["p"]):
+            # success edge of a Result / ControlFlow / Option that carries an "Ok implies len" postcondition
+            adt_ = df[3].get("adt") or ""
+            okv = {"core::result::Result": 0, "core::ops::control_flow::ControlFlow": 0, "core::option::Option": 1}.get(adt_)
+            if okv is not None:
+                vs = [v for v, tb in t["ts"] if tb == succ]
+                listed = {v for v, _ in t["ts"]}
+                on_ok = vs == [okv] or (t["o"] == succ and not vs and listed == {1 - okv})
+                if on_ok:
+                    sk = ("L", df[3]["p"]["l"])
+                    for r in list(st.rel):
+                        if r[0] == "OKLEN" and r[1] == sk:
+                            st.refine(r[2], r[3])
         if not df or df[2] != "assign" or df[3]["k"] != "discr" or df[3].get("adt") != "core::option::Option":
             return
         vals = [v for v, tb in t["ts"] if tb == succ]
